@@ -213,6 +213,9 @@ where
 
         let welcome_preview = self.preview_welcome(wrapper_event_id, rumor_event)?;
 
+        // Refuse a rumor without id before anything is written
+        let rumor_event_id = rumor_event.id.ok_or(Error::MissingRumorEventId)?;
+
         // Create a pending group
         let group = group_types::Group {
             mls_group_id: welcome_preview
@@ -268,8 +271,6 @@ where
             state: welcome_types::ProcessedWelcomeState::Processed,
             failure_reason: None,
         };
-
-        let rumor_event_id = rumor_event.id.ok_or(Error::MissingRumorEventId)?;
 
         let welcome = welcome_types::Welcome {
             id: rumor_event_id,
